@@ -6,10 +6,12 @@ cd "$(dirname "$0")/.."
 if ls spec/*.java >/dev/null 2>&1; then
   javac -cp /opt/veriftools/tla/tla2tools.jar -d spec spec/*.java
 fi
-for m in Masa MasaTrace MC_Registry; do
+for m in Masa MasaTrace MC_Registry MC_Names MasaAbi; do
   (cd spec && tla-sany $m.tla >/dev/null) || { echo "SANY failed on $m"; exit 1; }
 done
 # library variants and drivers from /repo's working tree (cached; checks rebuild when sources change)
 python3 harness/mk.py driver exc >/dev/null
 python3 harness/mk.py driver exit >/dev/null
+python3 harness/mk.py driver exc alloc >/dev/null
+python3 harness/mk.py driver san >/dev/null
 echo setup ok
